@@ -135,6 +135,23 @@ theorem no_duplicate_append (bs : List (Int × Nat × List Int)) (hf : StampFunc
   no_two_records_share_stamp bs i j hi hj
     (hf _ (List.getElem_mem hi) _ (List.getElem_mem hj) h)
 
+/-- The producer obligation in the form the trace rules check it: if what goes on the wire for a message is always the
+    stamp THAT message was given (a function of the message: `sequence_assigned_once` says a message is stamped at most
+    once, rules R2/R3 that a resend keeps the stamp), the log satisfies `StampFunctional` - and with
+    `Props.C05stamps.stamps_never_repeat` (no two messages are given the same stamp) every message is appended at most
+    once.  The pinned producer breaks the hypothesis on the retry paths listed as known findings. -/
+theorem stampFunctional_of_wire_stamp_function (log : List Rec) (f : Int → Int × Nat)
+    (h : ∀ r ∈ log, stamp r = f r.payload) : StampFunctional log := by
+  intro r hr q hq hp
+  rw [h r hr, h q hq, hp]
+
+/-- exactly-once append for every arrival history whose records travel under their own message's stamp -/
+theorem no_duplicate_append_of_wire_stamp_function (bs : List (Int × Nat × List Int)) (f : Int → Int × Nat)
+    (h : ∀ r ∈ (arriveAll {} bs).log, stamp r = f r.payload)
+    (i j : Nat) (hi : i < (arriveAll {} bs).log.length) (hj : j < (arriveAll {} bs).log.length)
+    (hp : (arriveAll {} bs).log[i].payload = (arriveAll {} bs).log[j].payload) : i = j :=
+  no_duplicate_append bs (stampFunctional_of_wire_stamp_function _ f h) i j hi hj hp
+
 /-- a resent batch that is still among the last five is recognised: nothing is appended and the answer carries
     the base offset of the first append -/
 theorem resend_is_deduplicated (s : PState) (epoch : Int) (f : Nat) (ps : List Int)
